@@ -179,6 +179,9 @@ func (fs *FS) Auth(ctx context.Context, uname, aname string) (p9p.AuthFile, erro
 
 func (fs *FS) Attach(ctx context.Context, uname, aname string, af p9p.AuthFile) (p9p.Dirent, error) {
 	e, ok := fs.call(ctx, "attach", nil)
+	if ok && e.Out == "failboth" {
+		return fs.placeholder(), ErrFS("attach")
+	}
 	if !ok || e.Out != "ok" {
 		return nil, ErrFS("attach")
 	}
@@ -212,6 +215,8 @@ func (h *Handle) StatDir() p9p.Dir {
 func (h *Handle) OpenDir(ctx context.Context) (p9p.ReadNext, error) {
 	e, ok := h.fs.call(ctx, "opendir", h)
 	switch {
+	case ok && e.Out == "failboth":
+		return func(context.Context) ([]p9p.Dir, error) { return nil, nil }, ErrFS("opendir")
 	case !ok && e.Out != "probe", e.Out == "fail":
 		return nil, ErrFS("opendir")
 	case e.Out == "nil":
@@ -230,6 +235,13 @@ func (h *Handle) Walk(ctx context.Context, names ...string) ([]p9p.Qid, p9p.Dire
 	defer fs.mu.Unlock()
 	if n := len(fs.Scripted); n > 0 {
 		fs.Scripted[n-1].Note = fmt.Sprint(names)
+	}
+	if ok && e.Out == "failboth" {
+		// results that accompany an error are void: the entry must be neither used nor released
+		fs.nextID++
+		ph := &Handle{fs: fs, ID: fs.nextID, Placeholder: true}
+		fs.All = append(fs.All, ph)
+		return []p9p.Qid{{Path: 99}}, ph, ErrFS("walk")
 	}
 	if !ok || e.Out == "fail" {
 		return nil, nil, ErrFS("walk")
@@ -261,6 +273,10 @@ func (h *Handle) Walk(ctx context.Context, names ...string) ([]p9p.Qid, p9p.Dire
 
 func (h *Handle) Create(ctx context.Context, name string, perm uint32, mode p9p.Flag) (p9p.Dirent, p9p.File, error) {
 	e, ok := h.fs.call(ctx, "create", h)
+	if ok && e.Out == "failboth" {
+		ph := h.fs.placeholder()
+		return ph, &HFile{H: ph}, ErrFS("create")
+	}
 	if !ok || e.Out != "ok" {
 		return nil, nil, ErrFS("create")
 	}
@@ -278,6 +294,9 @@ func (h *Handle) Create(ctx context.Context, name string, perm uint32, mode p9p.
 func (h *Handle) Open(ctx context.Context, mode p9p.Flag) (p9p.File, error) {
 	e, ok := h.fs.call(ctx, "open", h)
 	switch {
+	case ok && e.Out == "failboth":
+		// a file handed back together with an error is void
+		return &HFile{H: h, Void: true}, ErrFS("open")
 	case !ok && e.Out != "probe", e.Out == "fail":
 		return nil, ErrFS("open")
 	case e.Out == "nil":
@@ -326,7 +345,19 @@ func (h *Handle) WStat(ctx context.Context, d p9p.Dir) error {
 
 // ------------------------------------------------------------------- File
 
-type HFile struct{ H *Handle }
+type HFile struct {
+	H    *Handle
+	Void bool // handed out together with an error: any use is a use of a void result
+}
+
+func (fs *FS) placeholder() *Handle {
+	fs.mu.Lock()
+	defer fs.mu.Unlock()
+	fs.nextID++
+	ph := &Handle{fs: fs, ID: fs.nextID, Placeholder: true}
+	fs.All = append(fs.All, ph)
+	return ph
+}
 
 func (f *HFile) Pattern(n int) []byte {
 	b := make([]byte, n)
@@ -337,7 +368,11 @@ func (f *HFile) Pattern(n int) []byte {
 }
 
 func (f *HFile) Read(ctx context.Context, p []byte, off int64) (int, error) {
-	e, ok := f.H.fs.call(ctx, "read", f.H)
+	call := "read"
+	if f.Void {
+		call = "read-on-void-file"
+	}
+	e, ok := f.H.fs.call(ctx, call, f.H)
 	if !ok && e.Out != "probe" || e.Out == "fail" {
 		return 0, ErrFS("read")
 	}
@@ -348,7 +383,11 @@ func (f *HFile) Read(ctx context.Context, p []byte, off int64) (int, error) {
 }
 
 func (f *HFile) Write(ctx context.Context, p []byte, off int64) (int, error) {
-	e, ok := f.H.fs.call(ctx, "write", f.H)
+	call := "write"
+	if f.Void {
+		call = "write-on-void-file"
+	}
+	e, ok := f.H.fs.call(ctx, call, f.H)
 	if !ok && e.Out != "probe" || e.Out == "fail" {
 		return 0, ErrFS("write")
 	}
